@@ -52,6 +52,8 @@ def regenerate_gen():
     import py2coq
     st, detail = py2coq.regenerate(REPO, COQ)
     TRANSLATOR_STATUS["normalize_file_permissions"] = dict(status=st, detail=detail)
+    for unit, (st2, det2) in py2coq.regenerate_range_cmp(REPO, COQ).items():
+        TRANSLATOR_STATUS["version_range_constraint." + unit] = dict(status=st2, detail=det2)
     return st
 
 def build_coq(targets=None, timeout=3000):
